@@ -11,7 +11,7 @@ uint8_t nondet_u8(void);
 
 void harness(void) {
   VERIF_ALLOC_RESET();
-  _cbor_malloc = v_malloc; _cbor_realloc = v_realloc; _cbor_free = v_free;
+  verif_bind_allocator();
   g_alloc_forbidden = true; /* encoders request no memory (C13) */
   size_t in_size = nondet_size(), in_off = nondet_size();
   __CPROVER_assume(in_size <= VERIF_MAXOBJ && in_off <= 16);
